@@ -839,9 +839,154 @@ def gen_channel_tables():
     return '\n'.join(out) + '\n'
 
 
+
+# ----------------------------------------------------------------------------- kernprof.RepeatedTimer -> Model.Timer program
+def _self_attr(node, name=None):
+    return isinstance(node, ast.Attribute) and isinstance(node.value, ast.Name) and node.value.id == 'self' and (name is None or node.attr == name)
+
+
+def _timer_conds(test):
+    """`not self.is_running [and not self._stopped]` -> list of condition names, or None"""
+    parts = test.values if isinstance(test, ast.BoolOp) and isinstance(test.op, ast.And) else [test]
+    out = []
+    for p in parts:
+        if isinstance(p, ast.UnaryOp) and isinstance(p.op, ast.Not) and _self_attr(p.operand, 'is_running'):
+            out.append('notRunning')
+        elif isinstance(p, ast.UnaryOp) and isinstance(p.op, ast.Not) and _self_attr(p.operand, '_stopped'):
+            out.append('notStopped')
+        else:
+            return None
+    return out
+
+
+def _timer_act(stmt):
+    """a simple statement -> act name (with argument), 'call:<method>' for self.<method>(), or None"""
+    if isinstance(stmt, ast.Assign) and len(stmt.targets) == 1 and _self_attr(stmt.targets[0]):
+        attr, v = stmt.targets[0].attr, stmt.value
+        if attr == 'is_running' and isinstance(v, ast.Constant) and isinstance(v.value, bool):
+            return 'setRunning %s' % str(v.value).lower()
+        if attr == '_stopped' and isinstance(v, ast.Constant) and isinstance(v.value, bool):
+            return 'setStopped %s' % str(v.value).lower()
+        if attr == '_timer' and isinstance(v, ast.Call) and ast.unparse(v.func) in ('threading.Timer', 'Timer'):
+            return 'newTimer'
+        return None
+    if isinstance(stmt, ast.AugAssign) and _self_attr(stmt.target, 'next_call'):
+        return 'nop'
+    if isinstance(stmt, ast.Expr) and isinstance(stmt.value, ast.Call):
+        f = ast.unparse(stmt.value.func)
+        if f == 'self._timer.start':
+            return 'startTimer'
+        if f == 'self._timer.cancel':
+            return 'cancel'
+        if f == 'self.dump_func':
+            return 'dump'
+        if f.startswith('self.') and f.count('.') == 1:
+            return 'call:' + f[5:]
+    return None
+
+
+def _timer_instrs(cls, body, depth=0):
+    """statement list -> instruction dicts {'kind', 'line', ...}; unknown statements become the act `unknown`"""
+    out = []
+    for stmt in body:
+        if isinstance(stmt, ast.Expr) and isinstance(stmt.value, ast.Constant) and isinstance(stmt.value.value, str):
+            continue
+        if isinstance(stmt, ast.Return) and stmt.value is None and stmt is body[-1]:
+            continue
+        a = _timer_act(stmt)
+        if a and a.startswith('call:'):
+            m = next((f for f in cls.body if isinstance(f, ast.FunctionDef) and f.name == a[5:]), None)
+            if m is None or depth > 2:
+                out.append({'kind': 'act', 'act': 'unknown', 'line': stmt.lineno, 'src': ast.unparse(stmt)})
+            else:
+                out.extend(_timer_instrs(cls, m.body, depth + 1))
+            continue
+        if a:
+            out.append({'kind': 'act', 'act': a, 'line': stmt.lineno})
+            continue
+        if isinstance(stmt, ast.If) and not stmt.orelse and _timer_conds(stmt.test) is not None:
+            inner = _timer_instrs(cls, stmt.body, depth)
+            out.append({'kind': 'test', 'conds': _timer_conds(stmt.test), 'skip': len(inner), 'line': stmt.lineno})
+            out.extend(inner)
+            continue
+        if isinstance(stmt, ast.With) and len(stmt.items) == 1 and _self_attr(stmt.items[0].context_expr, '_lock') and stmt.items[0].optional_vars is None:
+            groups, ok = [], True
+            for sub in stmt.body:
+                sa = _timer_act(sub)
+                if sa and not sa.startswith('call:'):
+                    if groups and groups[-1][0] == [] and groups[-1][2]:
+                        groups[-1][1].append(sa)
+                    else:
+                        groups.append([[], [sa], True])
+                elif isinstance(sub, ast.If) and not sub.orelse and _timer_conds(sub.test) is not None and \
+                        all((_timer_act(x) or 'call:').startswith('call:') is False for x in sub.body):
+                    groups.append([_timer_conds(sub.test), [_timer_act(x) for x in sub.body], False])
+                else:
+                    ok = False
+            if ok:
+                out.append({'kind': 'atomic', 'groups': [[g[0], g[1]] for g in groups], 'line': stmt.lineno})
+                continue
+        out.append({'kind': 'act', 'act': 'unknown', 'line': stmt.lineno, 'src': ast.unparse(stmt)[:80]})
+    return out
+
+
+def timer_program():
+    """kernprof.RepeatedTimer as instruction lists (also used by the correspondence harness for its gate lines)"""
+    tree = ast.parse(src_of('kernprof.py'))
+    cls = next(n for n in ast.walk(tree) if isinstance(n, ast.ClassDef) and n.name == 'RepeatedTimer')
+    meth = {f.name: f for f in cls.body if isinstance(f, ast.FunctionDef)}
+    init = {'running': None, 'stopped': False, 'timer_none': False}
+    body = list(meth['__init__'].body)
+    k = 0
+    while k < len(body):
+        st = body[k]
+        if isinstance(st, ast.Assign) and len(st.targets) == 1 and _self_attr(st.targets[0]) and not any(isinstance(x, ast.Call) and ast.unparse(x.func).startswith('self.') for x in ast.walk(st.value)):
+            attr, v = st.targets[0].attr, st.value
+            if attr == 'is_running' and isinstance(v, ast.Constant):
+                init['running'] = v.value
+            elif attr == '_stopped' and isinstance(v, ast.Constant):
+                init['stopped'] = v.value
+            elif attr == '_timer' and isinstance(v, ast.Constant) and v.value is None:
+                init['timer_none'] = True
+            elif attr == '_timer':
+                break
+            k += 1
+        else:
+            break
+    ctor = _timer_instrs(cls, body[k:])
+    if init['running'] is not False or init['stopped'] is not False or not init['timer_none']:
+        ctor.insert(0, {'kind': 'act', 'act': 'unknown', 'line': meth['__init__'].lineno, 'src': 'unexpected initial field values %r' % init})
+    return {'ctor': ctor, 'run': _timer_instrs(cls, meth['_run'].body), 'stop': _timer_instrs(cls, meth['stop'].body), 'init': init}
+
+
+def _lean_instr(i):
+    def act(a):
+        return '.' + a if ' ' not in a else '.%s %s' % tuple(a.split())
+    if i['kind'] == 'act':
+        return '.act (%s)' % act(i['act'])
+    if i['kind'] == 'test':
+        return '.test [%s] %d' % (', '.join('.' + c for c in i['conds']), i['skip'])
+    return '.atomic [%s]' % ', '.join('([%s], [%s])' % (', '.join('.' + c for c in g[0]), ', '.join(act(a) for a in g[1])) for g in i['groups'])
+
+
+def gen_timer_prog():
+    p = timer_program()
+    out = ['import LPVerif.Model.Timer', '/-! `kernprof.RepeatedTimer` as a `Timer.Prog`, emitted by tools/extract.py from the tree — regenerated on every run. -/',
+           'namespace LPVerif.Generated', 'open LPVerif.Timer', '']
+    out.append('def repeatedTimer : Prog :=')
+    for j, name in enumerate(('ctor', 'run', 'stop')):
+        out.append('  %s %s := [%s]%s' % ('{' if j == 0 else ' ', name, ',\n      '.join(_lean_instr(i) for i in p[name]), ' }' if j == 2 else ','))
+    out.append('')
+    out.append('/-- source lines of the instructions (for the reader; the correspondence harness gates the real threads there) -/')
+    out.append('def repeatedTimerLines : List (List Nat) := [%s]' % ', '.join('[%s]' % ', '.join(str(i['line']) for i in p[name]) for name in ('ctor', 'run', 'stop')))
+    out.append('')
+    out.append('end LPVerif.Generated')
+    return '\n'.join(out) + '\n'
+
+
 GENERATORS = [('PreParse.lean', gen_pre_parse), ('RelImport.lean', gen_get_module),
               ('KernprofOptions.lean', gen_kernprof_options), ('ExplicitTables.lean', gen_explicit_tables),
-              ('Explicit.lean', gen_explicit_methods), ('WrapTables.lean', gen_wrap_tables), ('Skeletons.lean', gen_skeletons), ('ReportTables.lean', gen_report_tables), ('ChannelTables.lean', gen_channel_tables)]
+              ('Explicit.lean', gen_explicit_methods), ('WrapTables.lean', gen_wrap_tables), ('Skeletons.lean', gen_skeletons), ('ReportTables.lean', gen_report_tables), ('ChannelTables.lean', gen_channel_tables), ('TimerProg.lean', gen_timer_prog)]
 
 
 def regenerate(log=None):
